@@ -58,10 +58,12 @@ pub fn guarded<F: FnOnce() -> Value>(f: F) -> Value {
 
 pub fn variant_to_json(v: &Variant) -> Value {
     fn num(t: &str, f: f64, disp: String) -> Value {
+        // sx: the value is exactly a SINGLE value (what a SINGLE variable may hold)
+        let sx = !f.is_finite() || ((f as f32) as f64) == f;
         if f.is_finite() && f.fract() == 0.0 && f.abs() < 2147483648.0 {
-            json!({"t": t, "v": f as i64, "f": disp})
+            json!({"t": t, "v": f as i64, "f": disp, "sx": sx})
         } else {
-            json!({"t": t, "f": disp, "finite": f.is_finite()})
+            json!({"t": t, "f": disp, "finite": f.is_finite(), "sx": sx})
         }
     }
     match v {
